@@ -767,15 +767,27 @@ Definition work_effect (q : lreq) (ok : bool) (n : nat) (h : heap) : lreq * heap
    parks it in req->ptr; the other uv__iou_fs_* allocate nothing), then the
    completion in uv__poll_io_uring (+ uv__iou_fs_statx_post); reads/writes keep
    their buffer copy.  [unsupported] = the completion carried -EOPNOTSUPP and the
-   request was re-posted to the pool (uv__fs_post). *)
+   request was re-posted to the pool (ring_repost, then uv__fs_post). *)
 Definition ring_submit (q : lreq) (h : heap) : lreq * heap :=
   match q_kind q with
   | KStat | KFstat => (set_ptr q QStatx 0%Z (q_bufs q), alloc BkStatx h)
   | _ => (q, h)
   end.
 
+(* before uv__fs_post the struct statx parked in req->ptr is freed and
+   req->ptr cleared (linux.c, the -EOPNOTSUPP branch of uv__poll_io_uring) *)
+Definition ring_repost (q : lreq) (h : heap) : lreq * heap :=
+  match q_kind q with
+  | KStat | KFstat =>
+      match q_ptr q with
+      | QStatx => (set_ptr q QNull (q_result q) (q_bufs q), release BkStatx h)
+      | _ => (set_ptr q QNull (q_result q) (q_bufs q), h)       (* uv__free(NULL) *)
+      end
+  | _ => (q, h)
+  end.
+
 Definition ring_finish (q : lreq) (ok unsupported : bool) (n : nat) (h : heap) : lreq * heap :=
-  if unsupported then work_effect q ok n h
+  if unsupported then let '(q1, h1) := ring_repost q h in work_effect q1 ok n h1
   else
     match q_kind q with
     | KStat | KFstat =>
